@@ -56,18 +56,20 @@ Fixpoint cfg_run (k : pipekind) (cfg : prodcfg) (st : pstate) (h : list (exporte
       List.app (show_step_v s) (TS "|" :: cfg_run k cfg (step_state st s) r)
   end.
 
-(* fmt (field name | rename name new | render name id)* cfg ... : the formatter section *)
+(* fmt (field name | rename name new | render name id | key name)* cfg ... : the formatter section *)
 Fixpoint parse_fmt (fuel : nat) (l : list tok) (f : afmt) : afmt * list tok :=
   match fuel with
   | O => (f, l)
   | S fu =>
       match l with
       | TS "field" :: TS n :: r =>
-          parse_fmt fu r {| fFields := fFields f ++ [n]; fRename := fRename f; fRender := fRender f |}
+          parse_fmt fu r {| fFields := fFields f ++ [n]; fRename := fRename f; fRender := fRender f; fKeys := fKeys f |}
       | TS "rename" :: TS a :: TS b :: r =>
-          parse_fmt fu r {| fFields := fFields f; fRename := fRename f ++ [(a, b)]; fRender := fRender f |}
+          parse_fmt fu r {| fFields := fFields f; fRename := fRename f ++ [(a, b)]; fRender := fRender f; fKeys := fKeys f |}
       | TS "render" :: TS a :: TS b :: r =>
-          parse_fmt fu r {| fFields := fFields f; fRename := fRename f; fRender := fRender f ++ [(a, b)] |}
+          parse_fmt fu r {| fFields := fFields f; fRename := fRename f; fRender := fRender f ++ [(a, b)]; fKeys := fKeys f |}
+      | TS "key" :: TS n :: r =>
+          parse_fmt fu r {| fFields := fFields f; fRename := fRename f; fRender := fRender f; fKeys := fKeys f ++ [n] |}
       | TS "cfg" :: r => (f, r)
       | _ => (f, l)
       end
@@ -82,7 +84,7 @@ Definition show_step_f (fc : fmtc) (r : res stepres) : list tok :=
       show_outcome o :: TN (lenN ms) ::
         flat_map (fun m => List.app (show_msg m)
                     [TS "j"; opt_tok (format_json fc m); TS "t"; opt_tok (format_text fc m);
-                     TS "jsonok"; TS "keysok"; TS "agree"; TS "keyok"]) ms
+                     TS "jsonok"; TS "keysok"; TS "agree"; TS "k"; opt_tok (msg_key fc m); TS "keyok"]) ms
   | Err e => [err_tok e] | Panic => [TS "panic"] | OutOfFuel => [TS "fuel"]
   end.
 
